@@ -16,7 +16,7 @@ RULE = ("convolve: every (nx, nw) pair of the box (quick 1..120 + all pairs padd
         "distinct = distinct (nx,nw,mode) or (function,length,axis)")
 ASSUMPTIONS = ["numpy.convolve / numpy.fft are the textbook definitions", "float64 tolerance 1e-9 relative to the operands' magnitudes"]
 REQUIRED = {"contract:convolve_post": 1000, "fexpand_checked": 100, "fscale_checked": 100, "nsoptim_checked": 1000,
-            "lphp_checked": 50, "integer_sample_arrays": 20, "filter_history_calls": 200, "cosine_arrangements": 100, "dft_checked": 50, "cosine_checked": 20}
+            "lphp_checked": 50, "integer_sample_arrays": 20, "filter_history_calls": 200, "cosine_arrangements": 100, "corners_above_nyquist": 20, "dft_checked": 50, "cosine_checked": 20}
 CASE_TIMEOUT = 300.0
 
 _VIOL = []
@@ -254,6 +254,11 @@ def run_case(case):
                 si = float(rng.choice([1.0, 0.002, 1 / 30000]))
                 fny = 0.5 / si
                 b = np.sort(rng.uniform(0, fny, 2))
+                if rng.random() < 0.2:
+                    # a transition band that reaches beyond Nyquist (the taper is simply cut off there): still the same response for lp, hp and bp
+                    b[1] = fny * float(rng.uniform(1.05, 1.6))
+                    ikey += ":corner-above-nyquist"
+                    res.count("corners_above_nyquist")
                 if b[1] - b[0] < 1e-6 * fny:
                     b[1] = b[0] + 1e-3 * fny
                 b4 = np.sort(rng.uniform(0, fny, 4))
@@ -267,6 +272,8 @@ def run_case(case):
                     if rng.random() < 0.2:
                         hi2 = lo2.copy()
                     b4 = np.r_[lo2, hi2]
+                if ":corner-above-nyquist" in ikey:
+                    b4[3] = max(b4[3], fny * float(rng.uniform(1.05, 1.6)))
                 key = "filters:3d-non-last-axis" if (nd == 3 and a == 0) else ("filters:negative-axis" if (ax or 0) < 0 else "filters")
                 key += ikey
                 try:
